@@ -8,6 +8,7 @@ import (
 
 	"verif/internal/bind"
 	"verif/internal/gen"
+	"verif/internal/mon"
 	"verif/internal/ref"
 	"verif/internal/run"
 )
@@ -87,7 +88,16 @@ func (c16) Run(c *run.Ctx, phase, idx int) {
 		}
 		frame := ref.Reframe(first, body)
 		c.CurrentBytes("ReadPacket", frame)
-		res := libRead(frame)
+		var res mon.ReadResult
+		if k%4 == 3 {
+			// another connection is served while this frame's bytes arrive
+			otherFirst := byte(r.Intn(256))
+			other := ref.Reframe(otherFirst, nil)
+			res = mon.Read(&mon.ReentrantReader{Data: frame, Chunk: 1, Inner: func() { mon.Read(bytes.NewReader(other)) }})
+			class += "+reentrant-reader"
+		} else {
+			res = libRead(frame)
+		}
 		c.Eval(1)
 		c.Distinct(run.Hash64(itoa(idx), class, itoa(k)), true)
 		c.Count("first-byte-class", fmt.Sprintf("%s/%s", T, class), 1)
@@ -122,6 +132,14 @@ func (c16) Run(c *run.Ctx, phase, idx int) {
 			}
 		}
 		out, _, werr, pan := libEncode(res.Pkt)
+		if k%4 == 2 && pan == nil && werr == nil {
+			// written through a writer that encodes another packet inside Write
+			rw := mon.NewWriter()
+			o := mq.Pub(uint8(k%3), "x", "y")
+			rw.Inner = func() { var sink bytes.Buffer; o.WriteTo(&sink) }
+			pan = mon.Guard(func() { _, werr = res.Pkt.WriteTo(rw) })
+			out = rw.Buf
+		}
 		c.Eval(1)
 		if pan != nil || werr != nil || len(out) == 0 {
 			c.Violation("C16/rewrite-failed/"+T, fmt.Sprintf("WriteTo of the decoded packet failed: %v %v", werr, pan), det())
